@@ -84,6 +84,8 @@ class Model:
         self.evals = {}      # label -> [(t, ins, out)]
         self.cycles = []
         self.passive = {}    # node id -> set of passive input indices
+        self.dyn_active = {}  # node id -> current set of active input indices (run-time make_passive / make_active)
+        self.active_log = {}  # node id -> [(t, active indices after the evaluation's toggles)]
         for st in prog["stmts"]:
             st = snode_equiv(st)
             op = st["op"]
@@ -215,9 +217,12 @@ class Model:
                 continue
             ins = [self.port_of(r) for r in st.get("ins", [])]
             n = len(ins)
-            active = st.get("active")
-            active = set(range(n)) if active is None else set(active)
-            active -= {k for k, r in enumerate(st.get("ins", [])) if self.is_passive_ref(r)}
+            active = self.dyn_active.get(sid)
+            if active is None:
+                active = st.get("active")
+                active = set(range(n)) if active is None else set(active)
+                active -= {k for k, r in enumerate(st.get("ins", [])) if self.is_passive_ref(r)}
+                self.dyn_active[sid] = active
             p = self.pending[sid]
             sn = p.min() == t
             woken = sn or (first and st.get("schedule_on_start") and t == self.start)
@@ -281,4 +286,9 @@ class Model:
             if emit == "always" or (emit == "sched_now" and sn) or (emit == "tick" and any_mod):
                 self.ports[sid].write(t, x)
                 out = x
+        # run-time make_passive() / make_active() on an input, issued at the end of this evaluation: effective from the next cycle
+        for k, how in (st.get("toggle") or {}).get(str(ordn), []):
+            (self.dyn_active[sid].discard if how == "p" else self.dyn_active[sid].add)(k)
         self.evals[sid].append((t, snap, out))
+        if st.get("toggle"):
+            self.active_log.setdefault(sid, []).append((t, sorted(self.dyn_active[sid])))
